@@ -744,7 +744,10 @@ func (we *wireEnum) c16Bytes() {
 				desc := fmt.Sprintf("seed %d mutated to % x", si, frame)
 				cls := "bytes: rejected by decoder"
 				if derr == nil {
-					sig, detail := c16Check(f, frame, dec, desc)
+					sig, detail := c16RefDecode(frame, dec, desc)
+					if sig == "" {
+						sig, detail = c16Check(f, frame, dec, desc)
+					}
 					if sig != "" {
 						we.fail(sig, detail)
 						cls = "bytes: decoded -> " + sig
@@ -771,6 +774,37 @@ func (we *wireEnum) c16Bytes() {
 			we.fail("engine/panic-escaped-on-engine-thread", firstLine(res.Panics[0]))
 		}
 	}
+}
+
+// c16RefDecode: what the generated fast decoder (UnmarshalVT) made of a frame must be what the reference
+// protobuf decoder makes of it: same accept/reject verdict is NOT demanded (the fast decoder may be stricter
+// or laxer about malformed input), but when both accept, the envelopes must be equal - in particular the
+// three indices of every message ("last occurrence of a scalar field wins").
+func c16RefDecode(frame []byte, dec *remote.Envelope, desc string) (string, string) {
+	ref := &remote.Envelope{}
+	if err := (proto.UnmarshalOptions{AllowPartial: true}).Unmarshal(frame, ref); err != nil {
+		return "", ""
+	}
+	if len(ref.Messages) != len(dec.Messages) || len(ref.Targets) != len(dec.Targets) || len(ref.Senders) != len(dec.Senders) || fmt.Sprint(ref.TypeNames) != fmt.Sprint(dec.TypeNames) {
+		return "decoder/differs-from-reference-decoder", fmt.Sprintf("%s: tables decoded as %d/%d/%d/%v, the reference decoder reads %d/%d/%d/%v (messages/targets/senders/type names)", desc, len(dec.Messages), len(dec.Targets), len(dec.Senders), dec.TypeNames, len(ref.Messages), len(ref.Targets), len(ref.Senders), ref.TypeNames)
+	}
+	for i, m := range dec.Messages {
+		r := ref.Messages[i]
+		if m.TargetIndex != r.TargetIndex || m.SenderIndex != r.SenderIndex || m.TypeNameIndex != r.TypeNameIndex || string(m.Data) != string(r.Data) {
+			return "decoder/differs-from-reference-decoder", fmt.Sprintf("%s: message %d decoded as {target %d sender %d type %d data %x}, the reference decoder reads {target %d sender %d type %d data %x}", desc, i, m.TargetIndex, m.SenderIndex, m.TypeNameIndex, m.Data, r.TargetIndex, r.SenderIndex, r.TypeNameIndex, r.Data)
+		}
+	}
+	for i, t := range dec.Targets {
+		if pidStr(t) != pidStr(ref.Targets[i]) {
+			return "decoder/differs-from-reference-decoder", fmt.Sprintf("%s: target %d decoded as %s, the reference decoder reads %s", desc, i, pidStr(t), pidStr(ref.Targets[i]))
+		}
+	}
+	for i, t := range dec.Senders {
+		if pidStr(t) != pidStr(ref.Senders[i]) {
+			return "decoder/differs-from-reference-decoder", fmt.Sprintf("%s: sender %d decoded as %s, the reference decoder reads %s", desc, i, pidStr(t), pidStr(ref.Senders[i]))
+		}
+	}
+	return "", ""
 }
 
 // c16Unknown: frames that carry fields the schema does not know - every wire type (varint, 64-bit, bytes,
@@ -823,6 +857,18 @@ func (we *wireEnum) c16Unknown() {
 			descs = append(descs, fmt.Sprintf("unknown-field bytes #%d (% x) %s a valid envelope", ai, a, w))
 		}
 	}
+	// known scalar fields that occur twice in one Message (legal protobuf: the last occurrence wins)
+	head2 := &remote.Envelope{TypeNames: []string{tnKnown, tnUnknown}, Targets: []*actor.PID{actor.NewPID(wireAddr, wireTargetIDs[0]), actor.NewPID(wireAddr, wireTargetIDs[1])}, Senders: []*actor.PID{wireSender(1), wireSender(2)}}
+	h2, _ := head2.MarshalVT()
+	for _, tag := range []byte{0x10, 0x18, 0x20} { // targetIndex, senderIndex, typeNameIndex
+		for _, first := range []byte{0, 1, 2, 3} {
+			for _, second := range []byte{0, 1} {
+				body := cat([]byte{0x0a, byte(len(tm))}, tm, []byte{tag, first, tag, second})
+				frames = append(frames, cat(h2, lenPrefixed(0x22, body)))
+				descs = append(descs, fmt.Sprintf("a Message whose field with tag %#x occurs twice (%d, then %d)", tag, first, second))
+			}
+		}
+	}
 	res := inWorld(func() {
 		f := newWireFixture()
 		for i, frame := range frames {
@@ -840,7 +886,10 @@ func (we *wireEnum) c16Unknown() {
 				we.fail("decoder/panic-on-hostile-bytes", descs[i]+": "+p)
 				cls = "unknown: decoder panicked"
 			} else if derr == nil {
-				sig, detail := c16Check(f, frame, dec, descs[i])
+				sig, detail := c16RefDecode(frame, dec, descs[i])
+				if sig == "" {
+					sig, detail = c16Check(f, frame, dec, descs[i])
+				}
 				if sig != "" {
 					we.fail(sig, detail)
 					cls = "unknown: decoded -> " + sig
@@ -964,7 +1013,7 @@ func init() {
 		Desc: "Envelope values that no byte string decodes to: nil entries in the target table, the sender table and the message list (4 x 5 x 22 tables, with and without type names), handed to streamReader.Receive directly: no panic, deliveries only as named by valid indices, node usable afterwards",
 		Run: wireRun(func(we *wireEnum, tier string) { we.c16Values() })})
 	Register(&Job{Name: "C16/bytes/unknown-fields", Prop: "C16", Kind: "direct", Budget: 50, BudgetT: 300,
-		Desc: "fields the schema does not know, of every wire type (varint, 64-bit, bytes with length 0/1/truncated/2^63-1/overflowing, start and end group, 32-bit, the two invalid types), bare, inside a closed, an unclosed and a doubly nested group, placed in front of, behind and inside (Envelope, Message, PID) a valid envelope: the decoder neither panics nor hangs, what it accepts is checked like any envelope, the node stays usable",
+		Desc: "fields the schema does not know, of every wire type (varint, 64-bit, bytes with length 0/1/truncated/2^63-1/overflowing, start and end group, 32-bit, the two invalid types), bare, inside a closed, an unclosed and a doubly nested group, placed in front of, behind and inside (Envelope, Message, PID) a valid envelope, and Messages whose index fields occur twice (last one wins): the decoder neither panics nor hangs, what it accepts equals what the reference protobuf decoder reads and is checked like any envelope, the node stays usable",
 		Run: wireRun(func(we *wireEnum, tier string) { we.c16Unknown() })})
 	Register(&Job{Name: "C16/bytes/mutations", Prop: "C16", Kind: "direct", Budget: 50, BudgetT: 300,
 		Desc: "7 seed encodings: every proper prefix, every single-byte deletion, every single-byte substitution from {00,01,7f,80,ff,b+1,b-1} at every offset; whatever UnmarshalVT accepts goes on to streamReader.Receive",
